@@ -5,8 +5,10 @@ import Sessions.Proofs.Global.Dead07Ops
 import Sessions.Proofs.Global.Dead07
 import Sessions.Proofs.Global.Own01Ops
 import Sessions.Proofs.Global.Own01
+import Sessions.Proofs.Global.Rotate04Ops
+import Sessions.Proofs.Global.Rotate04
 /-!
-# History-level ("T-global") theorems for C01, C07, C08 (namespace `Sx.Glob`)
+# History-level ("T-global") theorems for C01, C03, C04, C07, C08 (namespace `Sx.Glob`)
 
 * `Delta`      — shared: what every model function does to the stored records, fault-free from an `Inv` state, up to
                  `ess` (`EssEqX`, `QuietX`, `cacheGet_delta`, `createNew_delta`, `regenerate_delta`, `follow_delta`,
@@ -19,4 +21,8 @@ import Sessions.Proofs.Global.Own01
                  `c07_no_resurrection`, `c07_never_comes_back`, `c07_ending_cookie`; proviso `Op7OK`
 * `Own01Ops`, `Own01` — C01: ghost `G1`/`exp`, invariant `Own1`/`Own`, `step_own1`, `own_all_histories`, `c01_exact`,
                  `c01_isolation`, `c01_continuity`; history-level C08 corollary `c08_after_logoutUser`
+* `Rotate04Ops`, `Rotate04` — C04: ghost `G4` (`repl`, `root`), trace judgment `Fine`, invariant `RI`/`Rot4`, `rot4_step`,
+                 `rot4_all_histories`, `c04_rotated_once`, `c04_never_full_again`, `c04_one_target`,
+                 `c04_replaced_not_minted`, `c04_req_mints`, `c04_one_mint_per_due_id`, `c04_presented_mints_once`,
+                 `c04_same_session`, `c04_same_handle`; proviso `Op4OK` (no `crashinside`)
 -/
